@@ -172,6 +172,8 @@ func (r *NetconfResponse) record1dot1Chunks() error {
 
 	var cursor int
 
+	var terminated bool
+
 	for cursor < len(d) {
 		if d[cursor] == byte('\n') {
 			// we don't need this at the start of this loop, but this lets us easily handle newlines
@@ -196,6 +198,8 @@ func (r *NetconfResponse) record1dot1Chunks() error {
 		}
 
 		if d[cursor] == byte('#') {
+			terminated = true
+
 			break
 		}
 
@@ -244,6 +248,12 @@ func (r *NetconfResponse) record1dot1Chunks() error {
 		// cursor accordingly -- we can ignore newlines after the chunk since we handle that at
 		// the top of this loop
 		cursor += chunkSize
+	}
+
+	if !terminated {
+		return errNetconf1Dot1ParseError(
+			"unable to parse netconf response: end of chunks marker missing",
+		)
 	}
 
 	joined = bytes.TrimPrefix(joined, []byte(xmlHeader))
